@@ -48,6 +48,11 @@ def pool():
         P.append(dict(kind='read', g=b, strict=1, inputs=[[1], []]))
     P.append(dict(kind='desc', text="S : 'a' ) ;", strict=1, inputs=[[97]]))                            # 3 syntax error
     P.append(dict(kind='desc', text="TERM A=1 A=2; S : A ;", strict=1, inputs=[[1]]))                     # repeated with different code
+    # terminals described without a code: the implicit codes start at 256 in every definition
+    P.append(dict(kind='desc', text="TERM NUM ID;\nL : L ',' I # l (0 2) | I # 0 ;\nI : NUM # 0 | ID # 0 ;\n", strict=1, codes=[256, 257, 44],
+                  inputs=[[256, 44, 257], [257], [256, 44], [257, 44, 257, 44, 256]]))
+    P.append(dict(kind='desc', text="TERM A B=300 C;\nS : A B C # s (0 1 2) | C # 0 ;\n", strict=1, codes=[256, 300, 257],
+                  inputs=[[256, 300, 257], [257], [256], [300]]))
     return P
 
 
@@ -113,6 +118,15 @@ class Hist:
                     toks = rng.choice(P[dd]['inputs'])
                 else:
                     toks = rng.choice(P[di]['inputs'])
+                if di is not None and rng.random() < 0.3:
+                    # a token code that is not declared, taken uniformly from the whole range of the dense code table
+                    # (below the smallest, in every gap between declared codes) or just above the largest declared code
+                    dc = declared_codes(P[di])
+                    if dc:
+                        cand = [c for c in range(0, max(dc) + 3) if c not in dc]
+                        if cand:
+                            toks = list(toks)
+                            toks.insert(rng.randrange(len(toks) + 1), rng.choice(cand))
                 am = rng.choice([0, 0, 1, 2]) if not only_c15 else rng.choice([0, 0, 0, 3])
                 if nparse >= 12:
                     continue
@@ -263,6 +277,20 @@ def run(pid, tier, seed, replay=None):
             st = r.get('stderr') or r.get('exit_problem', {}).get('stderr')
             if pid == 'C14':
                 chk.violation(sigbase % 'abort', 'history aborted / leaked: %s %s' % (what, (st or [''])[:2]), rep)
+            elif 'abort' in r and len(ops) < len(h.ops):
+                # C15: the call that did not return is a parse that had to return YAEP_INVALID_TOKEN_CODE, a setter or an error query
+                o = h.ops[len(ops)]
+                inv = False
+                if o[0] == 'parse' and o[5] is not None and dcode[o[5]] == 0:
+                    dc = declared_codes(P[o[5]])
+                    for t in o[3]:
+                        if t < 0:
+                            break
+                        if t not in dc:
+                            inv = True
+                            break
+                if inv or o[0] in ('set', 'err'):
+                    chk.violation(sigbase % 'abort', 'op %d (%s) did not return: %s %s' % (len(ops), 'parse of an input with an undeclared token code' if inv else o[0], what, (st or [''])[:2]), rep)
             continue
         mi = 0
         exp = model[hi]
@@ -274,8 +302,8 @@ def run(pid, tier, seed, replay=None):
                         bad = 'new object: error code %s message %r' % (res.get('ec'), res.get('em'))
                 if o[0] == 'freet' and pid == 'C14' and res.get('live_blocks', 0) != 0:
                     bad = 'after yaep_free_tree %d blocks of the parse are still allocated' % res['live_blocks']
-                if o[0] == 'freet' and pid == 'C14' and any(f < 0 and f != -1000000000 for f in res.get('frees', [])):
-                    bad = 'yaep_free_tree passed a block to parse_free twice or a pointer parse_alloc never returned: %s' % [f for f in res['frees'] if f < 0 and f != -1000000000][:4]
+                if o[0] == 'freet' and pid == 'C14' and any(f < 0 for f in res.get('frees', [])):
+                    bad = 'yaep_free_tree passed a block to parse_free twice or a pointer parse_alloc never returned (-1000000000: a null pointer): %s' % [f for f in res['frees'] if f < 0][:4]
                 continue
             e = exp[mi] if mi < len(exp) else None
             mi += 1
@@ -295,8 +323,8 @@ def run(pid, tier, seed, replay=None):
             elif o[0] == 'parse':
                 if res['rc'] != e:
                     bad = 'op %d: yaep_parse returned %d, expected %d' % (oi, res['rc'], e)
-                elif pid == 'C14' and any(f < 0 and f != -1000000000 for f in res.get('frees', [])):
-                    bad = 'op %d: yaep_parse passed a block to parse_free twice or a pointer parse_alloc never returned' % oi
+                elif pid == 'C14' and any(f < 0 for f in res.get('frees', [])):
+                    bad = 'op %d: yaep_parse passed a block to parse_free twice or a pointer parse_alloc never returned (-1000000000: a null pointer)' % oi
                 elif pid == 'C14' and res.get('nodes') and any(n['k'] == 'anode' and 'name_block' in n and n['name_block'] < res['first_block'] for n in res['nodes']):
                     bad = 'op %d: a node name of the returned tree lies in a block allocated by an earlier parse' % oi
                 elif res.get('reads_after_end', 0) != 0:
@@ -317,12 +345,73 @@ def run(pid, tier, seed, replay=None):
         if bad:
             chk.violation(sigbase % 'result', bad, rep)
     stats['parses_compared_with_fresh_object'] = nparse_cmp
+    # 6. a parse that ends in its error handler because one memory request failed (fault build): afterwards the setters
+    #    return the values that were set (C15) and the next parse returns what it returns without the failure (C14)
+    try:
+        exe_f = yvlib.build_impl('fault')
+    except yvlib.BuildError as e:
+        chk.obl['broken'].append('implementation (fault build) does not build: ' + str(e)[-800:])
+        return chk.finish(extra_cov={'stream': stats})
+    goodp = [d for di, d in enumerate(P) if dcode[di] == 0 and d['inputs'] and any(len(w) >= 3 for w in d['inputs'])]
+    fsc = []
+    for j in range(6 if quick else 30):
+        d = goodp[j % len(goodp)] if j < len(goodp) else rng.choice(goodp)
+        w = max(d['inputs'], key=len) if rng.random() < 0.7 else rng.choice(d['inputs'])
+        sets = [(0, rng.choice([0, 1, 2])), (2, rng.choice([0, 1, 1])), (3, rng.choice([0, 1, 1])), (4, rng.choice([0, 1])), (5, rng.choice([1, 2, 3]))]
+        fsc.append((d, w, sets))
+
+    def fault_case(cid, d, w, sets, k):
+        L = ['CASE %s' % cid, 'NEW 0'] + ['SET 0 %d %d' % s_ for s_ in sets] + define_lines(0, d) + ['COUNTERS', 'FAILAT %d' % k,
+             'PARSE 0 0 %d %s' % (len(w), ' '.join(map(str, w))), 'FAILAT -1', 'COUNTERS']
+        L += ['SET 0 %d %d' % s_ for s_ in sets]
+        L += ['PARSE 0 0 %d %s' % (len(w), ' '.join(map(str, w))), 'ERR 0', 'FREEG 0', 'END']
+        return '\n'.join(L)
+    fbase = yvlib.run_driver(exe_f, '\n'.join(fault_case('fb%d' % j, d, w, sets, -1) for j, (d, w, sets) in enumerate(fsc)))
+    fscript, fmeta = [], []
+    for j, ((d, w, sets), r) in enumerate(zip(fsc, fbase)):
+        cs = [o for o in r.get('ops', []) if o['op'] == 'counters']
+        if 'abort' in r or len(cs) < 2:
+            continue
+        n = cs[1]['allocs'] - cs[0]['allocs']
+        ks = list(range(1, n + 1))
+        if quick and len(ks) > 40:
+            ks = sorted(set(ks[-15:] + rng.sample(ks[:-15], 25)))
+        for k in ks:
+            fscript.append(fault_case('ff%d_%d' % (j, k), d, w, sets, k)); fmeta.append((j, k))
+    fres = yvlib.run_driver(exe_f, '\n'.join(fscript), timeout_case=30) if fscript else []
+    nfail = 0
+    for (j, k), r in zip(fmeta, fres):
+        d, w, sets = fsc[j]
+        b = fbase[j]
+        rep = {'property': pid, 'definition': d.get('text') or yvlib.grammar_text(d['g']), 'settings': sets, 'tokens': w, 'failing_request': k, 'implementation': r}
+        sig = '%s:%%s:fault:%s|%s|%s|k=%d' % (pid, (d.get('text') or yvlib.grammar_text(d['g'])).replace('\n', ' ')[:300], sets, w, k)
+        chk.note_case(('fault', j, k), True, {'history': ['settings %s' % sets, 'parse with request %d failing' % k, 'read settings', 'parse'], 'objects': 1})
+        if 'abort' in r:
+            continue        # a crash on a failing request is C17's
+        ops, bops = r['ops'], b['ops']
+        cs = [o for o in ops if o['op'] == 'counters']
+        if len(cs) < 2 or cs[1]['fail_seen'] != 1:
+            continue
+        nfail += 1
+        rs = [o['old'] for o in ops if o['op'] == 'set'][len(sets):]
+        bs = [o['old'] for o in bops if o['op'] == 'set'][len(sets):]
+        p2 = [o for o in ops if o['op'] == 'parse'][-1]
+        b2 = [o for o in bops if o['op'] == 'parse'][-1]
+        if pid == 'C15' and rs != bs:
+            chk.violation(sig % 'settings', 'after a parse that returned %d (memory request %d failed) the setters return %s as previous values, %s were set' % (
+                [o for o in ops if o['op'] == 'parse'][0]['rc'], k, rs, bs), rep)
+        elif pid == 'C14' and canon_parse(p2) != canon_parse(b2):
+            chk.violation(sig % 'parse', 'after a parse in which memory request %d failed the next parse differs from the same parse without the failure' % k, dict(rep, without_failure=b))
+    stats['fault_histories'] = len(fscript)
+    stats['fault_histories_with_failure'] = nfail
     chk.cov['rule'] = ('random API histories (create/set/define by callbacks or text/parse/error code/free) over 1-3 live objects from a pool of %d good and defective '
                        'definitions; a history is non-trivial when it has more than 4 calls; distinct = distinct call sequence' % len(P))
     return chk.finish(extra_cov={'stream': stats})
 
 
 def declared_codes(d):
+    if d.get('codes') is not None:
+        return set(d['codes'])
     if d['kind'] == 'read':
         return {c for n, c in d['g']['terms']}
     # description texts of the pool: explicit codes and character constants
